@@ -7,16 +7,43 @@ package main
 
 import (
 	"bytes"
+	"context"
 	"encoding/json"
 	"fmt"
 	"sync"
 
+	apkfs "chainguard.dev/apko/pkg/apk/fs"
 	"chainguard.dev/apko/pkg/build"
 )
+
+func concCancelDesc(fc *tarCancel, nerr int) string {
+	if fc == nil {
+		return ""
+	}
+	return fmt.Sprintf("; shared context made done (%s) by file-system call %d on the first file system: %d calls returned the context's error, every other result must be the complete layer", fc.Err, fc.K, nerr)
+}
+
+func concCancelTags(fc *tarCancel, fctx *faultCtx, nerr int, base string) []string {
+	tags := []string{base}
+	if fc == nil {
+		return tags
+	}
+	tags = append(tags, "cancel:shared", "cancel:kind:"+fc.Err)
+	if fctx.liveToken() == "never" {
+		return append(tags, "cancel:not-reached")
+	}
+	if nerr > 0 {
+		return append(tags, "cancel:fired", "cancel:some-calls-failed")
+	}
+	return append(tags, "cancel:fired", "cancel:no-call-failed")
+}
 
 type tarConcCase struct {
 	Cases []tarCase `json:"cases"`
 	Reps  int       `json:"reps"`
+	// the goroutines share one context (errgroup.WithContext) which becomes done at the k-th file-system call made on
+	// the first file system: every result must be an error or the layer serialised alone
+	Cancel *tarCancel `json:"cancel,omitempty"`
 }
 
 type tarConcSuite struct{}
@@ -31,6 +58,11 @@ func (tarConcSuite) Gen(r *Rng, i int, tier string) any {
 	for k := 0; k < n; k++ {
 		// same shapes, different contents: a mixed-up buffer then changes bytes, not sizes
 		c.Cases = append(c.Cases, genTarFsCase(r, k == 0 && r.Chance(30)))
+	}
+	if r.Chance(50) {
+		c.Cancel = genTarCancel(r, len(c.Cases[0].Ops))
+		c.Cancel.Path, c.Cancel.At = "writetar", "fscall"
+		c.Cancel.K = r.Intn(c.Reps * (2*len(c.Cases[0].Ops) + 4))
 	}
 	return c
 }
@@ -59,6 +91,18 @@ func (tarConcSuite) Run(raw json.RawMessage) []Step {
 	var mu sync.Mutex
 	var diverged []string
 	var wg sync.WaitGroup
+	shared := context.Context(ctx)
+	var fctx *faultCtx
+	bases := make([]apkfs.FullFS, len(worlds))
+	for i := range worlds {
+		bases[i] = worlds[i].base
+	}
+	nerr := 0
+	if c.Cancel != nil {
+		fctx = newFaultCtx(ctx, c.Cancel.Err, -1)
+		shared = fctx
+		bases[0] = &faultFS{FullFS: worlds[0].base, k: c.Cancel.K, fire: fctx.fire}
+	}
 	for rep := 0; rep < c.Reps; rep++ {
 		for i := range worlds {
 			wg.Add(1)
@@ -66,8 +110,15 @@ func (tarConcSuite) Run(raw json.RawMessage) []Step {
 				defer wg.Done()
 				var b bytes.Buffer
 				got := []byte(nil)
-				if err := build.VerifWriteTar(ctx, &b, worlds[i].base); err != nil {
+				if err := build.VerifWriteTar(shared, &b, bases[i]); err != nil {
 					got = []byte("ERR:" + tarErrClass(err))
+					if fctx != nil && shared.Err() != nil && tarCtxErrKind(err) == c.Cancel.Err {
+						// the shared context is done and the call says so: no layer was emitted
+						mu.Lock()
+						nerr++
+						mu.Unlock()
+						return
+					}
 				} else {
 					got = b.Bytes()
 				}
@@ -86,5 +137,5 @@ func (tarConcSuite) Run(raw json.RawMessage) []Step {
 		verdict = "fail:" + out
 	}
 	return []Step{{Line: "x.robust\ttar-conc-" + hx(string(raw[:min(len(raw), 24)])), Go: out, Mode: "oracle-go", GoSpec: verdict, NoImpl: true,
-		Desc: fmt.Sprintf("%d file systems serialised concurrently, %d repetitions each", len(c.Cases), c.Reps), Tags: []string{fmt.Sprintf("concurrent:%d", len(c.Cases)*c.Reps)}}}
+		Desc: fmt.Sprintf("%d file systems serialised concurrently, %d repetitions each%s", len(c.Cases), c.Reps, concCancelDesc(c.Cancel, nerr)), Tags: concCancelTags(c.Cancel, fctx, nerr, fmt.Sprintf("concurrent:%d", len(c.Cases)*c.Reps))}}
 }
